@@ -95,6 +95,14 @@ VMid == {V(<<s1, s2>>, <<q1, q2>>, <<l, <<>>>>, <<<<>>, t>>, "odd") :
 VMidT == {V(<<s1, s2>>, <<q1, q2>>, <<l, <<>>>>, <<<<>>, t>>, "odd") :
            s1 \in SepAll, s2 \in {SPs, <<9, 32>>}, q1 \in BOOLEAN, q2 \in BOOLEAN, l \in Pads, t \in {<<>>, SPs}}
 
+\* ---- white space: every Unicode White_Space character, as the ONLY separator / padding of a statement
+WsChars == {9, 10, 11, 12, 13, 32, 133, 160, 5760, 8232, 8233, 8239, 8287, 12288} \cup (8192..8202)
+\* three patterns per character c: c alone between the arguments; doubled, and as padding inside the braces;
+\* mixed with space and tab, some arguments quoted
+VWs == UNION {{V(<<<<ch>>>>, <<FALSE>>, <<<<>>>>, <<<<>>>>, "min"),
+               V(<<<<ch, ch>>>>, <<FALSE>>, <<<<ch>>>>, <<<<ch>>>>, "odd"),
+               V(<<<<ch>>, <<SP, ch>>, <<ch, TAB>>>>, <<TRUE, FALSE>>, <<<<ch>>, <<>>>>, <<<<>>, <<ch, ch>>>>, "even")} : ch \in WsChars}
+
 \* ------------------------------------------------------------------ plain trees
 Fn1 == <<102>>          \* f
 Fn2 == <<103>>          \* g
@@ -139,6 +147,28 @@ D2Big == Calls({Fn1}, AtomsFew \cup Calls({Fn2, Fn3}, AtomsFew, 2), 2)
 \* depth 3, one shape per position
 D3 == Calls({Fn1}, {LitN(<<Ca>>)} \cup Calls({Fn2}, {GrpN(1), LitN(<<>>)} \cup Calls({Fn1}, {KeyN(<<107>>), LitN(<<Ca, SP, C1>>)}, 1), 2), 2)
 
+\* ---- written integers (ExprSyntaxIdx.tla): the boundaries of the 64-bit (and 32-bit) index range
+GrpS(s) == N("grp", s, 0, <<>>)
+IdxShift(x, k) == IF k >= 0 THEN IxAdd(x, Itoa(k)) ELSE IxSub(x, Itoa(0 - k))
+IdxNats == {IdxShift(b, j) : b \in {IxP63, IxP64, IxAdd(IxP64, IxP64), Append(IxP64, 48), IxAdd(IxP63, IxP64)}, j \in -2..2}
+           \cup {IdxShift(b, j) : b \in {IxP31, IxP32}, j \in {-1, 0, 1}}
+           \cup {[i \in 1..20 |-> 57], <<49>> \o [i \in 1..19 |-> 48], <<49>> \o [i \in 1..25 |-> 48], <<55>>, <<48>>,
+                 <<49, 50, 51, 52, 53, 54, 55, 56, 57, 48>>}
+IdxStrs == IdxNats
+           \cup {<<45>> \o IdxShift(IxP63, j) : j \in -2..2} \cup {<<45>> \o IdxShift(IxP64, j) : j \in {-1, 0, 1, 2}}
+           \cup {<<45, 49>>, <<45, 48>>, <<48, 48, 55>>, <<45, 48, 49, 50>>, [i \in 1..21 |-> 48] \o <<49>>,
+                 <<48, 48>> \o IxP63, <<48, 48>> \o IdxShift(IxP63, -1), <<48>> \o IdxShift(IxP64, 1), <<45, 48, 48>> \o IxP63}
+IdxTrees == UNION {{<<GrpS(n)>>, <<LitN(<<Ca>>), GrpS(n), LitN(<<RBR>>)>>, <<CallN(Fn1, <<GrpS(n), LitN(<<Ca>>)>>)>>,
+                    <<CallN(Fn2, <<QtN(<<LitN(<<Ca, SP>>), GrpS(n)>>), GrpS(n)>>)>>} : n \in IdxStrs}
+\* ---- pools of the white-space groups: statements without any quote, brace or backslash inside (nothing but the
+\* separators tells the arguments apart), and a few with them
+WsAtoms == {LitN(<<Ca>>), LitN(<<C1, Ca>>), GrpN(1), GrpN(12), KeyN(<<107>>)}
+WsTrees == {<<x>> : x \in {GrpN(1), KeyN(<<107>>), CallN(Fn3, <<LitN(<<Ca>>), GrpN(1)>>)} \cup Calls({Fn1}, WsAtoms, 2)
+                          \cup Calls({Fn2}, {LitN(<<Ca>>), LitN(<<Ca, SP, C1>>), LitN(<<>>), CallN(Fn1, <<KeyN(<<107>>), LitN(<<C1>>)>>), QtN(<<GrpN(0)>>)}, 2)}
+           \cup {<<LitN(<<Ca, LF>>), CallN(Fn1, <<LitN(<<Ca>>), GrpN(1), LitN(<<C1>>)>>), LitN(<<TAB>>)>>}
+WsErrTrees == {<<x>> : x \in {EmptyN} \cup Calls({FnX}, {LitN(<<Ca>>), GrpN(1), KeyN(<<107>>)}, 2)
+                             \cup Calls({Fn1}, {EmptyN, LitN(<<Ca>>), CallN(FnY, <<LitN(<<Ca>>), GrpN(1)>>)}, 2)}
+
 Simple == {GrpN(n) : n \in GrpsAll} \cup {KeyN(k) : k \in KeysAll}
 
 \* malformed pools: an empty statement or an unregistered function somewhere
@@ -156,7 +186,11 @@ E2 == Calls({Fn1, FnX}, AtomsMin \cup {EmptyN} \cup Calls({Fn2, FnX}, AtomsErr, 
 Groups == {"simple", "d1", "qt", "d1wrap", "d1three", "d2", "d3", "two", "drop", "errnode", "escmode", "escall", "total"}
         \cup (IF Thorough THEN {"d2big", "d1all"} ELSE {})
 
-KindOf(g) == CASE g \in {"drop", "errnode"} -> "err" [] g \in {"escmode", "escall"} -> "esc"
+\* white space (every Unicode White_Space character as the only separator / padding) and written integers (the ends of the
+\* index range): explored by a run of their own (ExprSyntax_MC WsInit)
+GroupsWs == {"ws", "wserr", "idx"}
+
+KindOf(g) == CASE g \in {"drop", "errnode", "wserr"} -> "err" [] g \in {"escmode", "escall"} -> "esc"
                [] g = "total" -> "any" [] OTHER -> "rt"
 
 EscAlpha == {Ca, LBR, RBR, BSL, QUO, SP, 110, 116}           \* a { } \ " space n t
@@ -185,6 +219,9 @@ Trees(g) ==
                         \cup {<<x>> : x \in D3 \cup (IF Thorough THEN D2 ELSE {})}
                         \cup {<<GrpN(1), LitN(<<Ca, RBR>>), CallN(Fn1, <<KeyN(<<107>>), LitN(<<Ca>>)>>), LitN(<<RBR>>), KeyN(<<107>>)>>}
     [] g = "errnode" -> Wrap(E1 \cup {EmptyN}, {<<Ca>>}, {<<RBR>>}) \cup {<<x>> : x \in E2 \cup E3}
+    [] g = "ws"      -> WsTrees
+    [] g = "wserr"   -> WsErrTrees
+    [] g = "idx"     -> IdxTrees
 
 \* sub-keys of a group: a case set is expanded per (group, sub-key) so that TLC workers share the work
 Subs(g) ==
@@ -196,6 +233,8 @@ Subs(g) ==
     [] g = "drop"    -> {VOdd, VEven}
     [] g \in {"d1three", "d2", "d3"} -> VBase \cup (IF Thorough THEN VMid ELSE {})
     [] g = "errnode" -> {VOdd, VEven}
+    [] g \in {"ws", "wserr"} -> VWs
+    [] g = "idx"     -> {VOdd, VEven, CHOOSE v \in VWs : v.seps = <<<<LF>>>>}
     [] g = "escmode" -> {"min", "max", "odd"}
     [] g = "escall"  -> EscAlpha2 \cup {0}
     [] g = "total"   -> TotAlpha \cup {0}
@@ -207,7 +246,7 @@ Cases(g, k) ==
   CASE KindOf(g) = "rt" -> {AnnT(t, k) : t \in Trees(g)}
     [] g = "drop"    -> UNION {Drops(AnnT(t, k)) : t \in Trees(g)}
                         \cup (IF k = VOdd THEN UNION {UNION {Drops(d) : d \in Drops(AnnT(<<x>>, k))} : x \in D3} ELSE {})   \* two braces missing
-    [] g = "errnode" -> {a \in {AnnT(t, k) : t \in Trees(g)} : ErrUpper(a) # {}}
+    [] g \in {"errnode", "wserr"} -> {a \in {AnnT(t, k) : t \in Trees(g)} : ErrUpper(a) # {}}
     [] g = "escmode" -> {<<s, EscFlags(s, k)>> : s \in Strs(EscAlpha, IF Thorough THEN 5 ELSE 4)}
     [] g = "escall"  -> UNION {{<<s, e>> : e \in AllFlags(s)} :
                                  s \in StrsFrom(EscAlpha2, 3, k)
